@@ -86,7 +86,7 @@ pub fn gen(seed: u64, n: usize, _tier: &str) -> Vec<Case> {
                 26 | 27 => {
                     // pushes (and sometimes a pop) inside MULTI/EXEC, in one write or one by one
                     let mut b = vec![cmdv(&[b"MULTI"])];
-                    for _ in 0..(1 + g.r.below(3)) { b.push(if g.r.chance(1, 5) { g.pop() } else { g.push() }); }
+                    for _ in 0..(1 + g.r.below(3)) { b.push(match g.r.below(10) { 0 | 1 => g.pop(), 2 => g.bpop(), _ => g.push() }); }
                     b.push(cmdv(&[b"EXEC"]));
                     if g.r.chance(1, 2) { ops.push(bsend_op(c, &b)); } else { for q in &b { ops.push(bsend_op(c, &[q.clone()])); } }
                     ops.push(brecv_op(c));
@@ -109,6 +109,12 @@ pub fn gen(seed: u64, n: usize, _tier: &str) -> Vec<Case> {
                     ops.push(bsend_op(c, &[q1, q2])); if g.r.chance(1, 2) { ops.push(brecv_op(c)); }
                 }
                 37 => { ops.push(bsend_op(c, &[cmdv(&[b"LLEN", &g.key()])])); ops.push(brecv_op(c)); }
+                38 => {
+                    // the key of a wake-up under way turns into a string before the wake-up runs
+                    let k = g.key(); let e = g.els(1);
+                    let b = vec![cmdo(&[b"RPUSH".to_vec(), k.clone(), e[0].clone()]), cmdo(&[b"LPOP".to_vec(), k.clone()]), cmdo(&[b"SETNX".to_vec(), k.clone(), b"x".to_vec()])];
+                    ops.push(bsend_op(c, &b)); ops.push(brecv_op(c));
+                }
                 _ => { let q = g.bpop(); ops.push(bsend_op(c, &[q])); }
             }
         }
